@@ -23,6 +23,8 @@ PROP_UNITS = {
     'C06': {'verus': ['float_fbig_to_int', 'float_conv', 'float_digit_utils']},      # to_int truncates through shr_digits
     # C14: AbsOrd / NumOrd of floats of one base go through repr_cmp_same_base (unit float_cmp)
     'C14': {'verus': ['float_cmp']},
+    # C18: simplest_in orders its end points with repr_cmp (unit ratio_cmp)
+    'C18': {'verus': ['ratio_cmp']},
     # C17: the raw-pointer shift kernel (out-of-bounds writes are Kani pointer checks)
     'C17': {'kani': ['int_shift']},
     # C19: byte forms must be identical across word sizes = canonical (minimal) form, asserted by the int_bytes oracle
